@@ -301,9 +301,14 @@ def run_harness(name, cases, timeout=3000, race=False, extra_env=None, args=()):
     return rc, obs, se
 
 
-def run_model(name, lines, timeout=3000):
+def _limit_mem():
+    import resource
+    resource.setrlimit(resource.RLIMIT_AS, (16 << 30, 16 << 30))
+
+
+def run_model(name, lines, timeout=1800):
     exe = os.path.join(BIN, "modelrun-" + name)
-    p = subprocess.run([exe], input="".join(l + "\n" for l in lines),
+    p = subprocess.run([exe], input="".join(l + "\n" for l in lines), preexec_fn=_limit_mem,
                        stdout=subprocess.PIPE, stderr=subprocess.PIPE, text=True, timeout=timeout)
     if p.returncode != 0:
         raise EnvError("modelrun-%s failed: %s" % (name, p.stderr[-2000:]))
